@@ -39,7 +39,7 @@ def signature(f):
 
 
 def run(ctx):
-    for fam in ("members", "enums", "keys", "stream", "names", "attrs", "attrlists"):
+    for fam in ("members", "enums", "keys", "stream", "names", "attrs", "attrlists", "enumorder"):
         cfg = "MC_Rules_%s_%s" % (fam, ctx.tier if fam == "enums" else "quick")
         ctx.tlc("MC_Rules", cfg, replay="rules", coverage=False)
     # one violation injected into a generated well-formed program (every rule in contexts no template has)
